@@ -27,6 +27,8 @@ func c01ReplicaShapes(master, self string) []hostShape {
 		{Recv: []string{A, B}},                // both only received
 		{Exec: []string{A, F}},                // foreign-origin transaction (diverged)
 		{Exec: []string{A}, NoSS: true},       // not a semi-sync acker
+		{Recv: []string{A, B}, SQLStopped: true},                // both received, the applier thread is stopped
+		{Exec: []string{A}, Recv: []string{B}, SQLStopped: true}, // applied A, received B, the applier thread is stopped
 	}
 }
 
@@ -120,6 +122,22 @@ func TestVerifC01(t *testing.T) {
 		}
 	}
 	rng.Shuffle(len(bases), func(a, b int) { bases[a], bases[b] = bases[b], bases[a] })
+	// every sample starts with one base per request kind in which a replica with a stopped applier thread holds
+	// received transactions that the other replica lacks
+	{
+		var pinned, rest []base
+		have := map[int]bool{}
+		for _, b := range bases {
+			st2, st3 := r2[b.i2].SQLStopped, r3[b.i3].SQLStopped
+			if b.mi == 2 && st2 != st3 && !have[b.ri] && ((st2 && len(r3[b.i3].Exec)+len(r3[b.i3].Recv) == 0) || (st3 && len(r2[b.i2].Exec)+len(r2[b.i2].Recv) == 0)) {
+				have[b.ri] = true
+				pinned = append(pinned, b)
+			} else {
+				rest = append(rest, b)
+			}
+		}
+		bases = append(pinned, rest...)
+	}
 	// async mode (no semi-sync, repl_mon, allowed lag): the escape hatch of the catch-up wait is legitimate for
 	// automatic failover only; every 9th base of the run is one of these (replication frozen or lazy, so the
 	// chosen node has NOT applied everything when the wait starts)
